@@ -43,8 +43,8 @@ fn other_pubs<B: Fld>(pubs: &SpecPub<B>) -> Vec<SpecPub<B>> {
     let minimal = AirSpec { n: 8, rules: vec![Rule::Pow { d: 1, c: 0 }], exemptions: 1, asserts: vec![ASpec { col: 0, kind: AKind::Single(0) }], aux: Aux::None, aux_pow: 1, tail: Tail::Continue, init: 0 };
     vec![
         pubs.clone(),
-        SpecPub { spec: Arc::new(wide), values: vec![vec![B::ONE; 16], vec![B::ZERO]] },
-        SpecPub { spec: Arc::new(minimal), values: vec![] },
+        SpecPub { spec: Arc::new(wide), values: vec![vec![B::ONE; 16], vec![B::ZERO]], extra: vec![] },
+        SpecPub { spec: Arc::new(minimal), values: vec![], extra: vec![] },
     ]
 }
 
